@@ -41,6 +41,7 @@ def run(tier):
             f.write(json.dumps({"random": n, "len": 40, "bytes": False, "salt": k}) + "\n")
             f.write(json.dumps({"random": n, "len": 40, "bytes": True, "salt": 100 + k}) + "\n")
             f.write(json.dumps({"random": n // 2, "len": 60, "bytes": False, "salt": 200 + k, "alphabet": "<>/!-scriptSCRIPT xmp=\"'"}) + "\n")
+            f.write(json.dumps({"random": n, "frags": True, "salt": 400 + k}) + "\n")
             f.write(json.dumps({"random": n // 2, "len": 24, "salt": 300 + k, "chars": "<<>>/= \"'a-\u00e0\u00a0\u5143\u00e9\u00c5\U0001F600"}) + "\n")
     trace = os.path.join(wd, "random.trace.ndjson")
     run_harness("tok", cases, trace, timeout=6000)
